@@ -620,6 +620,10 @@ class Interp:
             return True, -node.operand.value
         return False, None
 
+    def literal_truth(self, tv, test):
+        """True / False when the abstract value of an `if` test is a boolean literal in this domain, else None (both branches are analysed)"""
+        return None
+
     def static_truth(self, v):
         if isinstance(v, StaticV):
             return bool(v.value)
@@ -1887,6 +1891,10 @@ class Interp:
         tv = self.ev(s.test, env, ctx)
         if is_static(tv):
             return self.exec_block(s.body if self.static_truth(tv) else s.orelse, env, ctx)
+        lit = self.literal_truth(tv, s.test)
+        if lit is not None:
+            # a flag that is a literal on this path (keyword or default of an inlined helper): only one branch exists
+            return self.exec_block(s.body if lit else s.orelse, env, ctx)
         self.h_test(tv, s.test, "if", env, ctx)
         e1 = self.h_assume(tv, s.test, True, self.fork_env(env), ctx)
         e2 = self.h_assume(tv, s.test, False, self.fork_env(env), ctx)
